@@ -184,6 +184,19 @@ struct Tot {
     polls: u64,
 }
 
+static CLOSE_PANICS: AtomicU64 = AtomicU64::new(0);
+
+/// close() with its panics caught and counted (a panicking close() has not closed anything).
+fn close_caught(h: &Handle) {
+    let prev_hook = std::panic::take_hook();
+    std::panic::set_hook(Box::new(|_| {}));
+    let r = std::panic::catch_unwind(std::panic::AssertUnwindSafe(|| h.close()));
+    std::panic::set_hook(prev_hook);
+    if r.is_err() {
+        CLOSE_PANICS.fetch_add(1, Ordering::SeqCst);
+    }
+}
+
 // instruction-step scenario (5): at the k-th instruction after the consumer's arrival at a site, a closer thread
 // runs close() to completion while the consumer stands still at that instruction
 static STEP_K: AtomicU64 = AtomicU64::new(0);
@@ -229,6 +242,22 @@ fn trial(front: Front, scenario: u32, psite: u32, occ: u64, with_signal: bool, s
     };
     let clone_a = handle.clone();
     let clone_b = handle.clone();
+    // In some trials an add_signal was rejected earlier (its documented panic caught by the application): close() must still
+    // close. And in some trials close() is called a second time through another clone afterwards: closed is for ever.
+    let poisoned_first = rng.chance(1, 4);
+    let double_close = rng.chance(1, 3);
+    if poisoned_first {
+        let h = handle.clone();
+        let prev_hook = std::panic::take_hook();
+        std::panic::set_hook(Box::new(|_| {}));
+        let r = std::panic::catch_unwind(std::panic::AssertUnwindSafe(|| h.add_signal(libc::SIGKILL)));
+        std::panic::set_hook(prev_hook);
+        if r.is_ok() {
+            tot.bad.push(("close-misc".into(), "add_signal(SIGKILL) did not panic".into()));
+        }
+        director::lib_exit();
+    }
+    let label = format!("{} rejected_add_before={} second_close={}", label, poisoned_first, double_close);
     let obs = Arc::new(Obs {
         ktid: AtomicI32::new(0),
         done: AtomicBool::new(false),
@@ -284,7 +313,7 @@ fn trial(front: Front, scenario: u32, psite: u32, occ: u64, with_signal: bool, s
     let spawn_closer = |h: Handle, done: Arc<AtomicBool>| {
         std::thread::spawn(move || {
             crate::set_thread(6, class::MUTATOR);
-            h.close();
+            close_caught(&h);
             director::lib_exit();
             director::flush_counts();
             done.store(true, Ordering::SeqCst);
@@ -314,7 +343,7 @@ fn trial(front: Front, scenario: u32, psite: u32, occ: u64, with_signal: bool, s
             } else {
                 tot.site_not_reached += 1;
             }
-            clone_a.close();
+            close_caught(&clone_a);
             closer_done.store(true, Ordering::SeqCst);
             if !clone_a.is_closed() || !clone_b.is_closed() || !handle.is_closed() {
                 tot.bad.push(("is-closed-not-sticky".into(), format!("is_closed() false on a clone after close() returned [{}]", label)));
@@ -362,7 +391,7 @@ fn trial(front: Front, scenario: u32, psite: u32, occ: u64, with_signal: bool, s
                 while CLOSE_GO.load(Ordering::SeqCst) == 0 {
                     std::hint::spin_loop();
                 }
-                h.close();
+                close_caught(&h);
                 director::lib_exit();
                 director::flush_counts();
                 done.store(true, Ordering::SeqCst);
@@ -420,7 +449,7 @@ fn trial(front: Front, scenario: u32, psite: u32, occ: u64, with_signal: bool, s
             for _ in 0..rng.below(40000) {
                 std::hint::spin_loop();
             }
-            clone_a.close();
+            close_caught(&clone_a);
             closer_done.store(true, Ordering::SeqCst);
             let y0 = obs.yields.load(Ordering::SeqCst);
             let tw = crate::now_ms();
@@ -469,7 +498,7 @@ fn trial(front: Front, scenario: u32, psite: u32, occ: u64, with_signal: bool, s
                 while crate::now_ms() - t0 < 3 {
                     std::hint::spin_loop();
                 }
-                h.close();
+                close_caught(&h);
                 director::lib_exit();
                 done.store(true, Ordering::SeqCst);
             }));
@@ -491,8 +520,14 @@ fn trial(front: Front, scenario: u32, psite: u32, occ: u64, with_signal: bool, s
     }
     // ---- the consumer must end. Stable stuck state = violation; watchdog = inconclusive.
     let tw = crate::now_ms();
+    let mut close_panicked = false;
     loop {
         if obs.done.load(Ordering::SeqCst) {
+            break;
+        }
+        if CLOSE_PANICS.swap(0, Ordering::SeqCst) > 0 {
+            tot.bad.push(("close-panicked".into(), format!("close() panicked instead of closing the instance [{}]", label)));
+            close_panicked = true;
             break;
         }
         if closer_done.load(Ordering::SeqCst) && crate::sig::fionread(readfd) == 0 {
@@ -507,7 +542,7 @@ fn trial(front: Front, scenario: u32, psite: u32, occ: u64, with_signal: bool, s
                     format!("close() returned, the self-pipe is empty and the consumer is blocked (stable) [{}]", label),
                 ));
                 // unblock it so that the process can go on: one more wake byte
-                handle.close();
+                close_caught(&handle);
                 deliver(1);
                 std::thread::sleep(std::time::Duration::from_millis(50));
                 break;
@@ -530,7 +565,22 @@ fn trial(front: Front, scenario: u32, psite: u32, occ: u64, with_signal: bool, s
         crate::istep::cancel_plan(5);
         LAST_STEP.lock().unwrap().0 = crate::istep::LAST_GAP[5].load(Ordering::SeqCst);
     }
-    // sticky after more deliveries
+    if close_panicked {
+        // nothing can close this instance any more; its consumer stays where it is
+        tot.trials += 1;
+        director::close_gate(0);
+        director::close_gate(1);
+        std::mem::forget(handle);
+        return;
+    }
+    if CLOSE_PANICS.swap(0, Ordering::SeqCst) > 0 {
+        tot.bad.push(("close-panicked".into(), format!("close() panicked [{}]", label)));
+    }
+    // sticky after more deliveries and after another close()
+    if double_close {
+        close_caught(&clone_b);
+        director::lib_exit();
+    }
     deliver(1);
     if !handle.is_closed() || !clone_b.is_closed() {
         tot.bad.push(("is-closed-not-sticky".into(), format!("is_closed() false later on [{}]", label)));
